@@ -26,6 +26,9 @@ type c27Case struct {
 	Entries []c27Entry `json:"entries"`
 	// Brief: channels (of those not subscribed) the node subscribed to and released again at once, before anything else
 	Brief int `json:"brief,omitempty"`
+	// Busy: right before the script arrives the node takes a subscription to an unrelated channel, so the router is
+	// in its re-evaluation pause (up to 100 ms) while the script's packets are decoded and queue up behind it
+	Busy bool `json:"busy,omitempty"`
 }
 
 var c27Channels = []string{"a", "b", "c"}
@@ -36,6 +39,7 @@ func genC27(t *rapid.T) c27Case {
 	if rapid.IntRange(0, 2).Draw(t, "hasbrief") == 0 {
 		c.Brief = rapid.IntRange(1, 7).Draw(t, "brief") &^ c.Subs
 	}
+	c.Busy = rapid.Bool().Draw(t, "busy")
 	n := rapid.IntRange(1, 10).Draw(t, "n")
 	for i := 0; i < n; i++ {
 		c.Entries = append(c.Entries, c27Entry{
@@ -124,6 +128,14 @@ func checkC27(c c27Case) (o vstat.Outcome) {
 		pkt = nil
 	}
 	dishonest := 0
+	if c.Busy {
+		if _, err := n.ps.AddSubscription(n.ctx, gen.Key(0), "busy"); err != nil {
+			o.Discard = true
+			return
+		}
+		subscribed["busy"] = true
+		o.Classes = append(o.Classes, "router-pausing-while-script-arrives")
+	}
 	for i, e := range c.Entries {
 		if e.NewPacket {
 			flush()
@@ -262,7 +274,7 @@ func checkC27(c c27Case) (o vstat.Outcome) {
 
 var specC27 = vstat.Spec[c27Case]{
 	Property: "C27",
-	Rule: "one real FloodSub node subscribed to a generated subset of channels {a,b,c}, a harness peer attached through AddPeerStream writing 1-10 publish entries (several per packet): honest, body tampered, inner channel rewritten after signing, signed for channel x but carrying y, signed by another key claiming the sender, signed under a non-pubsub context, empty channel, honest for an unsubscribed channel, exact duplicates; a second harness peer subscribed to everything observes what the node forwards; " +
+	Rule: "one real FloodSub node subscribed to a generated subset of channels {a,b,c}, a harness peer attached through AddPeerStream writing 1-10 publish entries (several per packet): honest, body tampered, inner channel rewritten after signing, signed for channel x but carrying y, signed by another key claiming the sender, signed under a non-pubsub context, empty channel, honest for an unsubscribed channel, exact duplicates; a second harness peer subscribed to everything observes what the node forwards; in half of the cases a local subscription change right before the script puts the router into its re-evaluation pause so that the packets queue up; " +
 		"oracle (independent ed25519 check): the subscription handlers get exactly the honest entries for their channel once each with the right sender, the observer is forwarded exactly those once each, nothing is echoed to the sender; non-trivial = at least one dishonest or unsubscribed-channel entry",
 	Assumptions: []string{"in-order processing per stream: an honest marker message after the script bounds the wait (no timing used as an oracle)"},
 	Gen:         genC27,
